@@ -9257,7 +9257,8 @@ class TensorDictBase(MutableMapping):
                 def newfn(item_and_out):
                     item, out = item_and_out
                     result = fn(item)
-                    out.update_(result)
+                    if result is not None:
+                        out.update_(result)
                     return
 
                 out_split = _split_tensordict(
